@@ -232,7 +232,7 @@ fn tokenize_tag(input: &str, bytepos: &mut usize) -> Result<TokenType, String> {
     let startpos = *bytepos;
 
     *bytepos += 1;
-    let mut c = input_bytes[*bytepos];
+    let mut c = b'\0';
     while *bytepos < datalen {
         c = input_bytes[*bytepos];
         if c == b'"' {
